@@ -71,6 +71,18 @@ AttrStep(m, e, l) ==
        ELSE IF e.exp \notin {"reject", "either"} /\ (Len(e.hs) # 1 \/ e.hs[1].attr # e.exp) THEN V(m, "wrong-summary", l, tag)
        ELSE m
 
+\* a free-format object: accepted exactly when the declared length is what the object implies
+FfStep(m, e, l) ==
+    LET tag == "ff " \o ToString(e.id)
+        nh == 1 + e.ff.follow
+    IN IF e.panic THEN V(m, "panic", l, tag)
+       ELSE IF e.exp = "reject" /\ ObjectsOk(e) THEN V(m, "accepted-inexact", l, tag)
+       ELSE IF e.exp = "accept" /\ ~ObjectsOk(e) THEN V(m, "rejected-own-encoding", l, tag)
+       ELSE IF e.exp = "accept" /\ (Len(e.hs) # nh \/ e.hs[1].g # 70 \/ e.hs[1].v # e.ff.v \/ e.hs[1].q # 91
+                                     \/ e.hs[1].count # 1)
+            THEN V(m, "wrong-summary", l, tag)
+       ELSE m
+
 FragStep(m, e, l) ==
     IF e.panic THEN V(m, "panic", l, e.src)
     ELSE IF ~e.agree THEN V(m, "peer-disagrees", l, e.src)
@@ -81,6 +93,7 @@ MonStep(m, e, l) ==
     CASE e.k = "case" -> CaseStep(m1, e, l)
       [] e.k = "pair" -> PairStep(m1, e, l)
       [] e.k = "attr" -> AttrStep(m1, e, l)
+      [] e.k = "ff" -> FfStep(m1, e, l)
       [] e.k = "frag" -> FragStep(m1, e, l)
       [] OTHER -> m
 =============================================================================
